@@ -1,6 +1,7 @@
 import NasdaqModel.Driver.Sexp
 import NasdaqModel.Model.GenSoupApp
 import NasdaqModel.Witness.C15
+import NasdaqModel.Witness.C15Enum
 /-
 Line protocol of the ITCH/OUCH/SQF generator model (C15).
 
@@ -17,7 +18,7 @@ Text is a list of code points `(99 112 …)`; an absent attribute is the atom `n
   gen.denote <impl> spec                   →  ok (schema …) | err <Err>
   gen.wf     <impl> spec                   →  true | false
   gen.table                                →  the datatype table, reserved names
-  witness C15                              →  ((<name> <impl> spec)*) — the regression specifications of `Witness/C15.lean`
+  witness C15                              →  ((<name> <impl> spec)*) — the regression specifications of `Witness/C15.lean`, `Witness/C15Enum.lean`
 -/
 namespace NasdaqModel.Driver.GenSoupAppD
 open NasdaqModel Sexp GenSoupApp
@@ -142,7 +143,12 @@ def witnesses : List (String × String × Spec) := [
   ("html-escaped-default-value", "sqf", Witness.C15.defaultSpec "A&B"),
   ("unescaped-quote-in-literal", "itch", Witness.C15.enumSpec "'"),
   ("unescaped-quote-in-literal", "itch", Witness.C15.enumSpec "\\"),
-  ("message-without-fields", "sqf", Witness.C15.emptyFields)]
+  ("message-without-fields", "sqf", Witness.C15.emptyFields),
+  -- enums whose member names overlap their values (Witness/C15Enum.lean, Props/C15Enum.lean)
+  ("enum-name-value-overlap", "itch", Witness.C15Enum.overlap "char_ascii"),
+  ("enum-name-value-overlap", "ouch", Witness.C15Enum.overlap "char_iso-8859-1"),
+  ("enum-name-value-overlap", "sqf", Witness.C15Enum.minimal),
+  ("enum-name-value-disjoint", "itch", Witness.C15Enum.disjoint)]
 
 def handle (op : String) (args : List Sexp) : Option String :=
   match op, args with
